@@ -495,6 +495,15 @@ func (p *PoolAllocator) AllocateWithOptions(ctx context.Context, opts AllocateOp
 
 // Release releases a subscriber's allocation and removes from store.
 func (p *PoolAllocator) Release(ctx context.Context, subscriberID string) error {
+	// Remove the store record first: if that fails the allocation must stay in
+	// memory too, or memory and store disagree about who holds the prefix.
+	if p.allocator.Lookup(subscriberID) != nil {
+		if err := p.store.RemoveAllocation(ctx, p.poolID, subscriberID); err != nil {
+			return err
+		}
+		return p.allocator.Release(subscriberID)
+	}
+
 	if err := p.allocator.Release(subscriberID); err != nil {
 		return err
 	}
